@@ -461,7 +461,9 @@ pub fn ops_at(j: &J, p: &Path, alphabet: &[String]) -> Vec<Op> {
     if matches!(p.last(), Some(Step::Key(_))) {
         ops.push(Op::DeleteKey);
     }
-    if *node != J::Null {
+    // a struct without fields carries no information: null for it is not a corruption
+    let empty_struct = matches!(node, J::Dict(d) if d.is_empty());
+    if *node != J::Null && !empty_struct {
         ops.push(Op::SetNone);
     }
     match node {
